@@ -208,6 +208,24 @@ def run(case):
             case.maxobs("max_batch_rotated_err", eb)
             case.check(eb <= 2e-4, "batch average (rotated molecules) != count-weighted mean of the averages of single "
                        "loaders with the same options", None, err=eb, corner_safe=cs, box=Sb, order=bl.order, ids=str(ids_))
+            # another batch loader with automatic ids 0..k-1 is merged in: every molecule keeps its own tomogram
+            if not isinstance(ids_[0], str):
+                other_b = BatchLoader(order=bl.order, scale=bl.scale, output_shape=(Sb,) * 3, corner_safe=cs)
+                extra = [_one(3), _one(4)]
+                for volx, mx, _slx, _nx in extra:
+                    other_b.add_tomogram(volx, mx)
+                merged = bl.copy()
+                merged.add_loader(other_b)
+                avg_m = np.asarray(merged.average())
+                tot_ = sum(ns) + sum(e[3] for e in extra)
+                comb_m = (sum(n * np.asarray(sl.average()) for n, sl in zip(ns, singles)) +
+                          sum(e[3] * np.asarray(e[2].average()) for e in extra)) / tot_
+                dvm = np.abs(avg_m - comb_m)
+                if bl.order == 0 and int((dvm > 2e-4).sum()) <= 3:
+                    dvm = np.where(dvm > 2e-4, 0.0, dvm)
+                case.check(float(dvm.max()) <= 2e-4 and merged.count() == tot_ and len(merged.images) == 4,
+                           "batch average after add_loader(another batch) != count-weighted mean of all single loaders",
+                           None, err=float(dvm.max()), ids=str(ids_), n_images=len(merged.images))
             # a derived batch that lost its first tomogram and then gains another one (automatic id must be fresh)
             import polars as _pl
             first_id = bl.molecules.features["image-id"][0]
